@@ -109,14 +109,36 @@ var EveryCodonOnce = strings.Join(ref.AllCodons(), "")
 // DrawSpec draws a table spec. cover makes re-weighting sequences contain every codon at
 // least once, so that every synonym class has a positive total.
 func DrawSpec(t *rapid.T, name string, cover bool, maxLen int) Spec {
-	s := Spec{ID: rapid.SampledFrom(IDs()).Draw(t, name+"_id")}
+	return DrawSpecFor(t, name, cover, maxLen, rapid.SampledFrom(IDs()).Draw(t, name+"_id"))
+}
+
+// DrawSpecFor is DrawSpec for a given table id.
+func DrawSpecFor(t *rapid.T, name string, cover bool, maxLen int, id int) Spec {
+	s := Spec{ID: id}
 	if rapid.IntRange(0, 3).Draw(t, name+"_reweight") > 0 {
 		s.Reweight = true
 		body := DrawCoding(t, name+"_coding", maxLen)
-		if cover {
+		if cover && rapid.Bool().Draw(t, name+"_cover_every_codon") {
 			// every codon k times, so that shares stay interesting
 			k := rapid.IntRange(1, 3).Draw(t, name+"_cover_times")
 			s.Seq = vk.SeqSpec{Lit: strings.Repeat(EveryCodonOnce, k) + body.Lit, Fill: body.Fill, N: body.N, Alpha: body.Alpha}
+		} else if cover {
+			// every amino acid (synonym class) occurs, but not every codon: some synonyms keep weight 0
+			g, _ := ref.GeneticCodeByID(s.ID)
+			var pre strings.Builder
+			for _, letter := range g.Letters() {
+				codons := g.CodonsOf(letter)
+				picks := rapid.SliceOfNDistinct(rapid.IntRange(0, len(codons)-1), 1, len(codons), func(i int) int { return i }).Draw(t, name+"_class_"+string(letter))
+				for _, i := range picks {
+					pre.WriteString(strings.Repeat(codons[i], rapid.IntRange(1, 4).Draw(t, name+"_class_times")))
+				}
+			}
+			// the random body may only use codons already present, so that absent synonyms stay at zero often:
+			// keep the run-length part of the body (it is short) and drop the bulk filler half of the time
+			if rapid.Bool().Draw(t, name+"_drop_bulk") {
+				body.N = 0
+			}
+			s.Seq = vk.SeqSpec{Lit: pre.String() + body.Lit, Fill: body.Fill, N: body.N, Alpha: body.Alpha}
 		} else {
 			s.Seq = body
 		}
